@@ -89,7 +89,7 @@ class CHECK(core.Check):
     N_THOROUGH = 6000
     N_SEARCH = 500
     RULE = ("a case = one polygon and a list of points. Bounded-exhaustive: every vertex sequence (quick: starting at its smallest vertex) of 3 vertices on the "
-            "4x4 grid and of 4 distinct vertices on the 3x3 grid (quick) / 3 on 5x5, 4 on 4x4, 5 on 3x3, and every SIMPLE 5-gon on "
+            "4x4 grid and of 4 distinct vertices on the 3x3 grid (quick) / 3 on 5x5, 4 on 4x4 and 5 distinct on 3x3 (these two starting at the smallest vertex), and every SIMPLE 5-gon on "
             "4x4 up to rotation (thorough), each with ALL grid points; sequences of 0..2 vertices. Random: star-shaped "
             "and random-walk polygons of 3..12 vertices with coordinates up to 60 or around 10^12, bow-ties, repeated "
             "and collinear vertices, with points = vertices, points on the sides, on the side lines beyond the ends, level "
@@ -132,6 +132,10 @@ class CHECK(core.Check):
             for seq in itertools.product(G, repeat=n):
                 if tier == "quick" and (seq[0] != min(seq) or (n == 4 and len(set(seq)) < 4)):
                     continue                      # quick: start at the smallest vertex; 4-gons with distinct vertices
+                if n == 5 and len(set(seq)) < 5:
+                    continue                      # 5-gons: distinct vertices only
+                if n >= 4 and seq[0] != min(seq):
+                    continue                      # 4- and 5-gons: one starting vertex per cyclic sequence
                 yield {"vs": [list(v) for v in seq], "pts": pts, "form": "tuple"}
         if tier == "thorough":
             G = grid(4)
